@@ -475,6 +475,25 @@ theorem c10_consts_extracted :
     Operon.Gen.Gates.membraneBuiltins.isSome ∧ Operon.Gen.Gates.innateBuiltins.isSome := by
   decide
 
+/-- the rows of a response table are cumulative: levels ascending by one, every row's actions / escalation targets
+    extend the previous row's, the rate factor never rises -/
+def cumulative : List (Nat × List String × List String × Nat × Bool) → Bool
+  | (l1, a1, e1, f1, g1) :: (l2, a2, e2, f2, g2) :: rest =>
+    (l2 == l1 + 1) && a1.isPrefixOf a2 && e1.isPrefixOf e2 && decide (f2 ≤ f1) && cumulative ((l2, a2, e2, f2, g2) :: rest)
+  | _ => true
+
+/-- **The inflammation response as a function of the level**, evaluated on the current code through `check` (one
+    crafted input per level — so an if-cascade and a lookup table yield the same facts): all five levels NONE … ACUTE
+    occur, the response is cumulative, enhanced logging is on exactly from LOW, NONE entails no action at the full
+    rate, and ACUTE entails lockdown at rate 0. -/
+theorem c10_inflammation_response_table :
+    ∃ t, Operon.Gen.Gates.inflammationResponses = some t ∧
+      t.map (·.1) = [lvlNone, lvlLow, lvlMedium, lvlHigh, lvlAcute] ∧ cumulative t = true ∧
+      (t.all fun r => r.2.2.2.2 == decide (r.1 ≥ lvlLow)) = true ∧
+      t.head? = some (lvlNone, [], [], 10, false) ∧
+      (t.getLast?.map fun r => (r.2.2.2.1, r.2.1.contains "lockdown")) = some (0, true) := by
+  exact ⟨_, rfl, by decide, by decide, by decide, by decide, by decide⟩
+
 /-- the membrane a default constructor call builds, from the regenerated tables -/
 def shippedMembrane : Membrane :=
   Membrane.new ((Operon.Gen.Gates.membraneBuiltins.getD []).map fun (p, l, r) => ⟨p, l, r⟩)
